@@ -69,6 +69,14 @@ def check_balance(prog, chk, rule, only=None):
                                "function's ROLLBACK TO s returns to the callee's savepoint and the modifications made here before "
                                "the call survive the failure" % (kind.split(":")[1], line),
                                path=["L%s" % x for x in st.trail_lines()])
+            if kind == "outermost-savepoint-left-open" and (kind, line) not in bad:
+                bad[(kind, line)] = None
+                rule.violation(fn.file, fn.name, line, "anomaly:%s" % kind,
+                               "`rollback to s` at L%s can run for a savepoint that is this function's outermost level with no "
+                               "enclosing transaction known: SQLite started a transaction for that savepoint, and ROLLBACK TO "
+                               "neither removes the savepoint nor ends the transaction - it stays open, and every later BEGIN on "
+                               "this CIF fails" % line, path=["L%s" % x for x in st.trail_lines()])
+                continue
             if kind == "full-rollback-without-own-transaction" and (kind, line) not in bad:
                 bad[(kind, line)] = None
                 rule.violation(fn.file, fn.name, line, "anomaly:%s" % kind,
